@@ -13,7 +13,8 @@ EXPLANATION = (
     "utils.get_sizes_from_dtype (fxp_sum's reader) is outside the statement."
     ' Added after the third round of seeded changes: no function writes class-level state such as Fxp.template (C20.R7).'
     " Added after the fourth round of seeded changes: the plain (no '-complex') template is chosen only after self.vdtype was found not complex; the Q reader's n_word is exactly n_frac + int(group 2) as terms; C20.R8 objects carry only the documented attributes and no function writes module-level containers (no caches / memos that go stale)."
-    ' Added after the fifth round of seeded changes: a string matched by a reader pattern is never rejected by a later check; constructor state (C20.R2): the notation default of an object is its own; C20.R8 also forbids mutable default arguments and private attributes hung on operands (x._cache, x.__dict__[...]).')
+    ' Added after the fifth round of seeded changes: a string matched by a reader pattern is never rejected by a later check; constructor state (C20.R2): the notation default of an object is its own; C20.R8 also forbids mutable default arguments and private attributes hung on operands (x._cache, x.__dict__[...]).'
+    " Added after the sixth round of seeded changes: the parser is followed through a pure delegation (return helper(fmt)), each returning path is classified by the pattern whose groups it reads, in-literal tests that accept both cases count as case-insensitive; R3 a restoring set_val(..., vdtype=<earlier value>) after vdtype = complex is reported (the '-complex' suffix would be lost on resize(dtype=...)).")
 ASSUMPTIONS = ["str.format renders an int field as its decimal numeral ('-' prefix when negative) (lemma)", "re.match anchors at the start only"]
 TRUSTED = ["CPython ast", "CPython re._parser", "fxlint.regexlang subset construction (< 100 states)"]
 
